@@ -552,6 +552,10 @@ outerNew:
 			if reposition {
 				if cursor.Hyperlink != "" {
 					_, _ = vx.tw.WriteString(tparm(osc8, "", ""))
+					// The link is closed on the terminal, the next
+					// cell has to open its own again
+					cursor.Hyperlink = ""
+					cursor.HyperlinkParams = ""
 				}
 				_, _ = vx.tw.WriteString(tparm(cup, row+1, col+1))
 				reposition = false
